@@ -144,76 +144,83 @@ func TestC19CertChain(t *testing.T) {
 		if err != nil {
 			t.Fatalf("HARNESS: certchain.New: %v", err)
 		}
-		generated, err := cc.Generate(ctx, uint64(n))
-		if err != nil {
-			vev.Fail(t, c19, "C19/certchain/generate-failed", "Generate(%d) failed: %v; world %v", n, err, describeWorld(w))
+		gens := 1
+		if rapid.IntRange(0, 2).Draw(t, "generateagain") == 0 {
+			gens = 2 // the same generator object is asked for a second chain (its random choices differ)
 		}
-		// heads finalized by the generated certificates, in the model
-		for _, c := range generated {
-			h := w.ec.ByKey[string(c.ECChain.Head().Key)]
-			if h == nil {
-				vev.Fail(t, c19, "C19/certchain/unknown-tipset", "generated certificate %d finalizes a tipset the EC does not know", c.GPBFTInstance)
-			}
-			w.heads = append(w.heads, h)
-		}
-		w.certs = generated
 		tableChanged := false
-		for i := w.m.InitialInstance; i <= w.m.InitialInstance+uint64(n); i++ {
-			cts := w.committeeTS(i)
-			if cts == nil {
-				continue
-			}
-			if !vref.EntriesEq(cts.Table, w.boot.Table) {
-				tableChanged = true
-			}
-			com, err := cc.GetCommittee(ctx, i)
+		for gen := 0; gen < gens; gen++ {
+			w.heads, w.certs = nil, nil
+			generated, err := cc.Generate(ctx, uint64(n))
 			if err != nil {
-				vev.Fail(t, c19, "C19/certchain/committee-error", "certchain.GetCommittee(%d) failed: %v", i, err)
+				vev.Fail(t, c19, "C19/certchain/generate-failed", "Generate(%d) failed: %v; world %v", n, err, describeWorld(w))
 			}
-			if !bytes.Equal(com.Beacon, cts.B) || !vref.EntriesEq(com.PowerTable.Entries, vref.Canonical(cts.Table)) {
-				vev.Fail(t, c19, "C19/certchain/committee-rule", "certchain.GetCommittee(%d) is not the table/beacon at the head finalized %d instances earlier (instance %d, epoch %d); initial instance %d, %d certificates", i, w.m.CommitteeLookback, i-w.m.CommitteeLookback, cts.E, w.m.InitialInstance, n)
+			// heads finalized by the generated certificates, in the model
+			for _, c := range generated {
+				h := w.ec.ByKey[string(c.ECChain.Head().Key)]
+				if h == nil {
+					vev.Fail(t, c19, "C19/certchain/unknown-tipset", "generated certificate %d finalizes a tipset the EC does not know", c.GPBFTInstance)
+				}
+				w.heads = append(w.heads, h)
 			}
-		}
-		// the certificates commit to the committees a real network would have
-		for j, c := range generated {
-			inst := w.m.InitialInstance + uint64(j)
-			if c.GPBFTInstance != inst {
-				vev.Fail(t, c19, "C19/certchain/instance", "certificate %d has instance %d", j, c.GPBFTInstance)
+			w.certs = generated
+			for i := w.m.InitialInstance; i <= w.m.InitialInstance+uint64(n); i++ {
+				cts := w.committeeTS(i)
+				if cts == nil {
+					continue
+				}
+				if !vref.EntriesEq(cts.Table, w.boot.Table) {
+					tableChanged = true
+				}
+				com, err := cc.GetCommittee(ctx, i)
+				if err != nil {
+					vev.Fail(t, c19, "C19/certchain/committee-error", "certchain.GetCommittee(%d) failed: %v", i, err)
+				}
+				if !bytes.Equal(com.Beacon, cts.B) || !vref.EntriesEq(com.PowerTable.Entries, vref.Canonical(cts.Table)) {
+					vev.Fail(t, c19, "C19/certchain/committee-rule", "certchain.GetCommittee(%d) is not the table/beacon at the head finalized %d instances earlier (instance %d, epoch %d); initial instance %d, %d certificates", i, w.m.CommitteeLookback, i-w.m.CommitteeLookback, cts.E, w.m.InitialInstance, n)
+				}
 			}
-			if cts := w.committeeTS(inst + 1); cts != nil && c.SupplementalData.PowerTable != vref.TableCID(cts.Table) {
-				vev.Fail(t, c19, "C19/certchain/supplemental", "certificate of instance %d commits to a table other than the node-rule committee of instance %d", inst, inst+1)
+			// the certificates commit to the committees a real network would have
+			for j, c := range generated {
+				inst := w.m.InitialInstance + uint64(j)
+				if c.GPBFTInstance != inst {
+					vev.Fail(t, c19, "C19/certchain/instance", "certificate %d has instance %d", j, c.GPBFTInstance)
+				}
+				if cts := w.committeeTS(inst + 1); cts != nil && c.SupplementalData.PowerTable != vref.TableCID(cts.Table) {
+					vev.Fail(t, c19, "C19/certchain/supplemental", "certificate of instance %d commits to a table other than the node-rule committee of instance %d", inst, inst+1)
+				}
 			}
-		}
-		// a chain a real network can produce validates against the node-derived tables
-		baseTS := toGpbft(w.boot)
-		if _, _, _, err := certs.ValidateFinalityCertificates(vcrypto.Scheme{}, w.m.NetworkName, w.boot.Table, w.m.InitialInstance, baseTS, generated...); err != nil {
-			vev.Fail(t, c19, "C19/certchain/does-not-validate", "generated chain rejected by ValidateFinalityCertificates: %v", err)
-		}
-		// node over a store holding these certificates
-		ds := vds.New()
-		st, err := certstore.CreateStore(ctx, ds, w.m.InitialInstance, w.boot.Table)
-		if err != nil {
-			t.Fatalf("HARNESS: %v", err)
-		}
-		for _, c := range generated {
-			if err := st.Put(ctx, c); err != nil {
-				vev.Fail(t, c19, "C19/certchain/store-rejects", "certificate store rejects generated certificate %d: %v", c.GPBFTInstance, err)
+			// a chain a real network can produce validates against the node-derived tables
+			baseTS := toGpbft(w.boot)
+			if _, _, _, err := certs.ValidateFinalityCertificates(vcrypto.Scheme{}, w.m.NetworkName, w.boot.Table, w.m.InitialInstance, baseTS, generated...); err != nil {
+				vev.Fail(t, c19, "C19/certchain/does-not-validate", "generated chain rejected by ValidateFinalityCertificates: %v", err)
 			}
-		}
-		w.store = st
-		in := w.inputs()
-		for i := w.m.InitialInstance; i <= w.m.InitialInstance+uint64(n); i++ {
-			a, errA := cc.GetCommittee(ctx, i)
-			b, errB := in.GetCommittee(ctx, i)
-			if errA != nil || errB != nil {
-				continue
+			// node over a store holding these certificates
+			ds := vds.New()
+			st, err := certstore.CreateStore(ctx, ds, w.m.InitialInstance, w.boot.Table)
+			if err != nil {
+				t.Fatalf("HARNESS: %v", err)
 			}
-			if !bytes.Equal(a.Beacon, b.Beacon) || !vref.EntriesEq(a.PowerTable.Entries, b.PowerTable.Entries) {
-				vev.Fail(t, c19, "C19/certchain/differs-from-node", "instance %d: certchain and the node derive different committees from the same EC and certificates (beacon equal=%v)", i, bytes.Equal(a.Beacon, b.Beacon))
+			for _, c := range generated {
+				if err := st.Put(ctx, c); err != nil {
+					vev.Fail(t, c19, "C19/certchain/store-rejects", "certificate store rejects generated certificate %d: %v", c.GPBFTInstance, err)
+				}
+			}
+			w.store = st
+			in := w.inputs()
+			for i := w.m.InitialInstance; i <= w.m.InitialInstance+uint64(n); i++ {
+				a, errA := cc.GetCommittee(ctx, i)
+				b, errB := in.GetCommittee(ctx, i)
+				if errA != nil || errB != nil {
+					continue
+				}
+				if !bytes.Equal(a.Beacon, b.Beacon) || !vref.EntriesEq(a.PowerTable.Entries, b.PowerTable.Entries) {
+					vev.Fail(t, c19, "C19/certchain/differs-from-node", "instance %d: certchain and the node derive different committees from the same EC and certificates (beacon equal=%v)", i, bytes.Equal(a.Beacon, b.Beacon))
+				}
 			}
 		}
 		beyond := uint64(n) >= w.m.CommitteeLookback
-		vev.Case(c19, vev.Digest("cc", fmt.Sprint(describeWorld(w)), n), beyond && tableChanged, "certchain", fmt.Sprintf("beyond-bootstrap-window:%v", beyond), fmt.Sprintf("table-changed:%v", tableChanged))
+		vev.Case(c19, vev.Digest("cc", fmt.Sprint(describeWorld(w)), n, gens), beyond && tableChanged, "certchain", fmt.Sprintf("certchain-generate-calls:%d", gens), fmt.Sprintf("beyond-bootstrap-window:%v", beyond), fmt.Sprintf("table-changed:%v", tableChanged))
 		vev.Sample(c19, func() any { d := describeWorld(w); d["kind"] = "certchain"; d["generated"] = n; return d })
 	})
 }
